@@ -412,6 +412,7 @@ def _corruption_cases(rng, tier):
         [(b"2;e", 1), (b"\r\n", 1), (b"\r\n", 0), (b"\r\n", 1), (b"1", 1), (b"\r\n", 1), (b"q", 0), (b"\r\n", 1),
          (b"00", 1), (b"\r\n", 1), (b"T:v", 1), (b"\r\n", 1), (b"\r\n", 1), (b"0\r\n\r\n", 0)],
     ]
+    bases.append([(b"1", 1), (b"\r\n", 1), (b"q", 0), (b"\r\n", 1), (b"0;x=y", 1), (b"\r\n", 1), (b"\r\n", 1)])
     classes = [13, 10, 32, 9, ord("0"), ord("a"), ord(";"), 0, 255, ord("X")]
     for pieces in bases:
         stream = b"".join(p for p, _ in pieces)
@@ -428,6 +429,20 @@ def _corruption_cases(rng, tier):
                 cl = [[]] + [[j] for j in range(1, len(s2))] + [_bytewise(s2)]
                 maxtr = DEFAULT_MAX
                 out.append(_case(s2, cl, maxtr, "corrupt-crlf" if stream[i] in (13, 10) else "corrupt-framing", None))
+    return out
+
+
+def _ext_sweep_cases(tier):
+    """every byte value inside a chunk extension, on an ordinary chunk and on the terminating chunk"""
+    out = []
+    special = [0, 1, 8, 9, 10, 11, 12, 13, 31, 32, 34, 59, 61, 92, 127, 128, 255]
+    for b in range(256):
+        e = b"a" + bytes([b]) + b"b"
+        streams = [b"1\r\nz\r\n0;" + e + b"\r\n\r\nX"]
+        if tier != "quick" or b in special:
+            streams += [b"1;" + e + b"\r\nz\r\n0\r\n\r\n", b"00;" + bytes([b]) + b"\r\nT: v\r\n\r\n", b"0;" + bytes([b]) + b"\r\n\r\n"]
+        for s2 in streams:
+            out.append(_case(s2, [[], _bytewise(s2), [len(s2) // 2]], DEFAULT_MAX, "ext-sweep", None))
     return out
 
 
@@ -453,6 +468,7 @@ def gen(rng, tier):
     cases += _limit_cases(rng, 6 if q else 80)
     cases += _mutation_cases(rng, 120 if q else 1500)
     cases += _corruption_cases(rng, tier)
+    cases += _ext_sweep_cases(tier)
     cases += _soup_cases(rng, 400 if q else 5000)
     for _ in range(40 if q else 300):
         n = rng.choice([0, 1, 9, 10, 15, 16, 17, 255, 256, 257, 4095, 4096]) if rng.random() < 0.7 else rng.randrange(0, 70000)
